@@ -1,4 +1,46 @@
 //! ad-hoc probes (not part of any check)
+use crate::util::*;
+use engeom::common::AngleDir;
+use engeom::geom2::hull::{ball_pivot_with_centers_2d, BallPivotEnd, BallPivotStart};
+use engeom::Point2;
+
 pub fn run() {
-    crate::c10::probe();
+    if std::env::var("VH_PROBE").as_deref() == Ok("c10") {
+        crate::c10::probe();
+        return;
+    }
+    // ball pivot on scattered clouds: find a case with a point strictly inside a ball and describe it
+    // (the known finding of C15: `vh PROBE 1 1` prints the first four; about one cloud in 10 000)
+    let mut rng = Rng::new(12345);
+    let mut found = 0;
+    for case in 0..200000 {
+        let n = 300;
+        let big = 3.0;
+        let mut pts: Vec<Point2> = Vec::new();
+        while pts.len() < n {
+            let p = Point2::new(rng.range(-big, big), rng.range(-big, big));
+            if p.coords.norm() <= big {
+                pts.push(p);
+            }
+        }
+        let spacing = (std::f64::consts::PI * big * big / n as f64).sqrt();
+        let radius = spacing * *rng.pick(&[2.5, 3.0, 4.0, 6.0]);
+        let Ok(Ok((idx, centers))) = guarded(|| ball_pivot_with_centers_2d(&pts, BallPivotStart::StartOnConvex, BallPivotEnd::EndOnRepeat, AngleDir::Ccw, radius)) else { continue };
+        for (j, c) in centers.iter().enumerate() {
+            if j + 1 >= idx.len() {
+                break;
+            }
+            for (k, p) in pts.iter().enumerate() {
+                if (c - p).norm() < radius - 1e-7 {
+                    println!("case {case}: radius {radius:.4} step {j}: working {} -> next {}, point {k} inside at {:.4}; previous {:?}, two back {:?}", idx[j], idx[j + 1], (c - p).norm(), if j >= 1 { Some(idx[j - 1]) } else { None }, if j >= 2 { Some(idx[j - 2]) } else { None });
+                    println!("   working {:?} next {:?} inside {:?} prev {:?} centre {:?} prev centre {:?}", pts[idx[j]], pts[idx[j + 1]], p, if j >= 1 { Some(pts[idx[j - 1]]) } else { None }, c, if j >= 1 { Some(centers[j - 1]) } else { None });
+                    found += 1;
+                    break;
+                }
+            }
+        }
+        if found >= 4 {
+            break;
+        }
+    }
 }
